@@ -246,3 +246,486 @@ def field_path(t):
     if t == ("arg", 1):
         return ".".join(reversed(names))
     return None
+
+
+# ====================================================================== PM -- parser model
+STR = "core::str::<impl str>::"
+
+
+def cchar(t):
+    t = strip(t)
+    if t[0] == "const" and isinstance(t[1], tuple) and t[1][0] == "char":
+        return chr(t[1][1])
+    return None
+
+
+def cstr(t):
+    t = strip(t)
+    if t[0] == "const" and isinstance(t[1], str):
+        return t[1]
+    return None
+
+
+_DECODERS = set()
+
+
+def set_decoders(keys):
+    """Local fns recognised as the strict percent-decoder (by decoder_role); used by region()."""
+    _DECODERS.clear()
+    _DECODERS.update(keys)
+
+
+def region(t):
+    """Translate a normalised &str term into a region term over the function's input.
+
+    ("Input", n) | ("StripPrefix", k, r) | ("TrimStart", c, r) | ("Trim", c, r) | ("TrimEnd", c, r)
+    | ("RSplitL"|"RSplitR"|"SplitL"|"SplitR", c, r)
+    | ("RSplitLOpt"|"RSplitROpt"|"SplitLOpt"|"SplitROpt", c, r)   -- that half if c occurs, else all of r
+    | ("Item", c, r)        an element of r.split(c)
+    | ("Decode", r)         ok-payload of the local strict decoder applied to r
+    | ("?", shown)          not understood
+    """
+    n = norm(t)
+    return _region(n)
+
+
+def _split_call(n):
+    """n = call rsplit_once/split_once(R, c) -> (kind, c, R) else None"""
+    if n[0] == "call" and n[1] in (STR + "rsplit_once", STR + "split_once") and len(n[2]) == 2:
+        c = cchar(n[2][1])
+        if c is None:
+            return None
+        return ("R" if n[1].endswith("rsplit_once") else "", c, n[2][0])
+    return None
+
+
+def _region(n):
+    k = n[0]
+    if k == "arg":
+        return ("Input", n[1])
+    if k == "call":
+        p = n[1]
+        if p == STR + "trim_start_matches" and cchar(n[2][1]) is not None:
+            return ("TrimStart", cchar(n[2][1]), _region(n[2][0]))
+        if p == STR + "trim_end_matches" and cchar(n[2][1]) is not None:
+            return ("TrimEnd", cchar(n[2][1]), _region(n[2][0]))
+        if p == STR + "trim_matches" and cchar(n[2][1]) is not None:
+            return ("Trim", cchar(n[2][1]), _region(n[2][0]))
+        return ("?", nshow(n))
+    if k in ("some", "ok"):
+        x = n[1]
+        if x[0] == "call" and x[1] in _DECODERS and len(x[2]) == 1:
+            return ("Decode", _region(x[2][0]))
+        # ok(ok_or(X, e)) == some(X)
+        if x[0] == "call" and x[1] == "std::option::Option::<T>::ok_or":
+            x = x[2][0]
+        if x[0] == "call" and x[1] == STR + "strip_prefix":
+            ks = cstr(x[2][1])
+            if ks is not None:
+                return ("StripPrefix", ks, _region(x[2][0]))
+        if x[0] == "call" and "Iterator" in x[1] and x[1].endswith("::next"):
+            it = x[2][0]
+            src = it[2] if it[0] == "var" else it
+            while src[0] == "call" and src[1] in ("std::iter::IntoIterator::into_iter", "<I as std::iter::IntoIterator>::into_iter"):
+                src = src[2][0]
+            if src[0] == "call" and src[1] == STR + "split" and cchar(src[2][1]) is not None:
+                return ("Item", cchar(src[2][1]), _region(src[2][0]))
+        return ("?", nshow(n))
+    if k == "field":
+        base = n[1]
+        if base[0] in ("some", "ok"):
+            x = base[1]
+            if x[0] == "call" and x[1] == "std::option::Option::<T>::ok_or":
+                x = x[2][0]
+            sc = _split_call(x)
+            if sc is not None and n[2] in ("0", "1"):
+                d, c, r = sc
+                return (d + "Split" + ("L" if n[2] == "0" else "R"), c, _region(r))
+        return ("?", nshow(n))
+    if k == "phi":
+        rs = [_region(x) for x in n[1]]
+        if len(rs) == 2:
+            for a, b in ((rs[0], rs[1]), (rs[1], rs[0])):
+                if b[0] in ("RSplitL", "RSplitR", "SplitL", "SplitR") and b[2] == a:
+                    return (b[0] + "Opt", b[1], a)
+        return ("Phi", tuple(rs))
+    return ("?", nshow(n))
+
+
+def show_region(r):
+    k = r[0]
+    if k == "Input":
+        return "Input"
+    if k == "?":
+        return "?<%s>" % r[1][:80]
+    if k == "Phi":
+        return "Phi(%s)" % " | ".join(show_region(x) for x in r[1])
+    if k == "Decode":
+        return "Decode(%s)" % show_region(r[1])
+    return "%s(%r, %s)" % (k, r[1], show_region(r[2]))
+
+
+def region_ok(r):
+    if r[0] == "?":
+        return False
+    if r[0] == "Input":
+        return True
+    if r[0] == "Phi":
+        return False
+    if r[0] == "Decode":
+        return region_ok(r[1])
+    return region_ok(r[2])
+
+
+def returns(body):
+    """Definition sites of the return place _0: [(bb, normalised term)]"""
+    out = []
+    for (b, i, kind, payload) in body.defs().get(0, []):
+        if body.is_cleanup(b):
+            continue
+        if kind == "call":
+            out.append((b, norm(body.call_term(b))))
+        else:
+            out.append((b, norm(body._rv_term(payload))))
+    return out
+
+
+def classify_return(n):
+    """('ok', payload) | ('err', errterm) | ('propagate', callterm_of_failed_result) | ('tail', callterm) | ('other', n)"""
+    if n[0] == "agg" and n[1][0] == "adt" and n[1][1] == "std::result::Result":
+        return ("ok" if n[1][2] == "Ok" else "err", n[2][0])
+    if n[0] == "agg" and n[1][0] == "adt" and n[1][1] == "std::option::Option":
+        return ("some" if n[1][2] == "Some" else "none", n[2][0] if n[2] else None)
+    if n[0] == "from_residual":
+        e = n[1]
+        if e[0] == "err":
+            return ("propagate", e[1])
+        return ("propagate", e)
+    if n[0] == "call":
+        return ("tail", n)
+    return ("other", n)
+
+
+def error_const(e):
+    """Name a constant error value: 'ParseError::InvalidEscape', 'ParseError::MissingRequiredField(Name)' ..."""
+    if e[0] == "conv":
+        return error_const(e[1])
+    if e[0] == "call" and (e[1].endswith("::from") or e[1].endswith("::into")) and len(e[2]) == 1:
+        return error_const(e[2][0])
+    if e[0] == "agg" and e[1][0] == "adt":
+        path = e[1][1].split("::")[-1]
+        name = "%s::%s" % (path, e[1][2])
+        if e[2]:
+            return "%s(%s)" % (name, ", ".join(error_const(x) for x in e[2]))
+        return name
+    if e[0] == "const":
+        return repr(e[1])
+    return "?" + nshow(e)[:80]
+
+
+def parts_writes(body, var_local):
+    """Partial writes `var.field = term` to a PurlParts local: [(bb, fieldname, normalised term)]"""
+    out = []
+    for (b, i, st) in body.partial_writes(var_local):
+        if body.is_cleanup(b):
+            continue
+        if i == "term":
+            pl = st["dest"]
+            term = norm(body.call_term(b), keep_conv=True)
+        else:
+            if st["s"] != "assign":
+                continue
+            pl = st["place"]
+            term = norm(body._rv_term(st["rv"]), keep_conv=True)
+        names = [p["name"] for p in pl["proj"] if p["p"] == "field"]
+        out.append((b, ".".join(names), term))
+    return out
+
+
+def unconv(t):
+    while t[0] == "conv":
+        t = t[1]
+    return t
+
+
+def decoder_role(facts, key):
+    """Is the local fn `key` the strict percent-decoder?  (percent_decode_str(x).decode_utf8().map_err(_ -> InvalidEscape))"""
+    if key not in facts.bodies:
+        return None
+    b = facts.body(key)
+    if b.back_edges() or b.arg_count != 1:
+        return None
+    t = norm(b.resolve_local(0))
+    # map_err(decode_utf8(percent_decode_str(arg1)), closure)
+    if t[0] == "call" and t[1] == "std::result::Result::<T, E>::map_err":
+        inner, clo = t[2]
+        if inner[0] == "call" and inner[1] == "percent_encoding::PercentDecode::<'a>::decode_utf8":
+            src = inner[2][0]
+            if src[0] == "call" and src[1] == "percent_encoding::percent_decode_str" and src[2] == (("arg", 1),):
+                err = None
+                if clo[0] == "closure" and clo[1] in facts.bodies:
+                    cb = facts.body(clo[1])
+                    err = error_const(norm(cb.resolve_local(0)))
+                return {"kind": "strict", "error": err}
+    return None
+
+
+def parser_model(facts):
+    key = from_str_fn(facts)
+    body = facts.body(key)
+    if body.back_edges():
+        raise AnchorError("from_str contains a loop; the term dataflow of the parser model assumes a loop-free body", key)
+    pm = {"key": key, "body": body, "sinks": {}, "calls": [], "guards": [], "returns": []}
+    # the PurlParts accumulator: a var local of type PurlParts
+    parts_locals = [i for i, l in enumerate(body.locals) if l["ty"] == "PurlParts" and i in body.mut_locals()]
+    if len(parts_locals) != 1:
+        raise AnchorError("expected exactly one mutable PurlParts local in from_str, found %d" % len(parts_locals), key)
+    pv = parts_locals[0]
+    pm["parts_local"] = pv
+    init = norm(body._resolve_local(pv))
+    pm["parts_init"] = init
+    decoders = {k: decoder_role(facts, k) for k in facts.bodies}
+    decoders = {k: v for k, v in decoders.items() if v}
+    pm["decoders"] = decoders
+    set_decoders(decoders.keys())
+    # field stores
+    for (b, fld, term) in parts_writes(body, pv):
+        t = unconv(term)
+        sink = {"bb": b, "site": body.site(b), "field": fld, "term": term, "atoms": [a for _, a in atoms_at(body, b)]}
+        if t[0] == "ok" and t[1][0] == "call" and t[1][1] in facts.bodies and len(t[1][2]) == 1:
+            callee = t[1][1]
+            sink["via"] = callee
+            sink["region"] = _region(t[1][2][0])
+            sink["decoded"] = callee in decoders
+        else:
+            sink["via"] = None
+            sink["region"] = _region(t)
+            sink["decoded"] = False
+        pm["sinks"].setdefault(fld, []).append(sink)
+    # calls that receive &mut parts (the qualifier decoder) and the type conversion / build
+    for bb, t in body.calls():
+        path = callee_name(t["callee"])
+        args = [norm(body.resolve_operand(a)) for a in t["args"]]
+        rec = {"bb": bb, "site": body.site(bb), "path": path, "args": args, "atoms": [a for _, a in atoms_at(body, bb)], "generic": t["callee"].get("trait")}
+        if any(a == ("var", pv, init) or (a[0] == "var" and a[1] == pv) for a in args):
+            rec["takes_parts"] = True
+        pm["calls"].append(rec)
+    for (b, n) in returns(body):
+        pm["returns"].append({"bb": b, "site": body.site(b), "cls": classify_return(n), "atoms": [a for _, a in atoms_at(body, b)]})
+    return pm
+
+
+# ====================================================================== effects on mutable locals
+def mut_effects(body):
+    """Calls that receive a mutable borrow of (part of) a local/argument, and partial writes.
+
+    Returns [{bb, path, target, args, atoms, in_loop}] where target = ("var", n, path...) / ("arg", n, path...)."""
+    out = []
+    loops = body.loops()
+    for bb, t in body.calls():
+        path = callee_name(t["callee"])
+        raw = [body.resolve_operand(a) for a in t["args"]]
+        for i, a in enumerate(raw):
+            tgt = mut_target(a)
+            derived = False
+            if tgt is None:
+                tgt = contains_mut_target(a, body)
+                derived = tgt is not None
+            if tgt is not None:
+                out.append({
+                    "derived": derived,
+                    "bb": bb,
+                    "site": body.site(bb),
+                    "path": path,
+                    "argi": i,
+                    "target": tgt,
+                    "args": [norm(x, keep_conv=True) for x in raw],
+                    "raw": raw,
+                    "atoms": [x for _, x in atoms_at(body, bb)],
+                    "loop": next((h for h, blk in loops.items() if bb in blk), None),
+                })
+    return out
+
+
+def mut_target(a):
+    """If term `a` is a mutable reference (possibly reborrowed / deref_mut'ed) to a place rooted at a var/arg,
+    return ("var"|"arg", n, fieldpath)."""
+    mutable = False
+    t = a
+    fields = []
+    while True:
+        if t[0] == "ref":
+            if t[1]:
+                mutable = True
+            t = t[2]
+        elif t[0] == "deref":
+            t = t[1]
+        elif t[0] == "call" and isinstance(t[1], str) and (t[1] == "std::ops::DerefMut::deref_mut" or t[1].endswith("as std::ops::DerefMut>::deref_mut")) and len(t[2]) == 1:
+            mutable = True
+            t = t[2][0]
+        elif t[0] == "cast" and ("Pointer" in t[1] or "Unsize" in t[1]):
+            t = t[2]
+        elif t[0] == "field":
+            fields.append(t[2])
+            t = t[1]
+        else:
+            break
+    if not mutable:
+        return None
+    if t[0] == "var":
+        return ("var", t[1], ".".join(reversed(fields)))
+    if t[0] == "arg":
+        return ("arg", t[1], ".".join(reversed(fields)))
+    return None
+
+
+def _call_may_hold_borrow(body, a):
+    """Can the result of this call hold a reference?  (its type mentions a reference or a lifetime)"""
+    if body is None:
+        return True
+    t = body.term(a[3])
+    if t["t"] != "call":
+        return True
+    ty = body.locals[t["dest"]["l"]]["ty"] if not t["dest"]["proj"] else "&"
+    return "&" in ty or "'" in ty
+
+
+def contains_mut_target(a, body=None, depth=0):
+    """A value that *holds* a mutable borrow (e.g. an entry object returned by a call that took &mut x)."""
+    if depth > 12 or not isinstance(a, tuple):
+        return None
+    if a[0] == "call" and not _call_may_hold_borrow(body, a):
+        return None
+    if a[0] == "ref" and a[1]:
+        t = mut_target(a)
+        if t is not None:
+            return t
+    if a[0] in ("call",):
+        for x in a[2]:
+            t = mut_target(x) or contains_mut_target(x, body, depth + 1)
+            if t is not None:
+                return t
+        return None
+    if a[0] in ("field", "downcast", "deref", "discr"):
+        return contains_mut_target(a[1], body, depth + 1)
+    if a[0] in ("ref", "cast", "var"):
+        return contains_mut_target(a[2], body, depth + 1)
+    if a[0] in ("agg", "closure"):
+        for x in a[2]:
+            t = mut_target(x) or contains_mut_target(x, body, depth + 1)
+            if t is not None:
+                return t
+    if a[0] == "phi":
+        for x in a[1]:
+            t = contains_mut_target(x, body, depth + 1)
+            if t is not None:
+                return t
+    return None
+
+
+def loop_of_next(body):
+    """loops whose header (or a block in the loop dominating all others) calls Iterator::next: {header: (bb_next, iter term)}"""
+    out = {}
+    for h, blk in body.loops().items():
+        for b in sorted(blk):
+            t = body.term(b)
+            if t["t"] == "call" and "path" in t["callee"]:
+                p = callee_name(t["callee"])
+                if t["callee"].get("item") == "next" or p.endswith("::next"):
+                    if all(body.dominates(b, x) or x == b or body.dominates(x, b) and x == h for x in blk):
+                        out[h] = (b, norm(body.resolve_operand(t["args"][0])), p)
+                        break
+    return out
+
+
+# ====================================================================== canonical atoms
+EMPTY_PREDS = (STR + "is_empty", "smartstring::SmartString::<Mode>::is_empty", "std::string::String::is_empty")
+STR_CONTAINS = STR + "contains"
+SLICE_CONTAINS = "core::slice::<impl [T]>::contains"
+
+
+def const_strs(t):
+    """list of strings of a constant [&str; N] / &[&str] term, else None"""
+    t = strip(t) if t[0] in ("ref", "deref", "cast", "call") else t
+    if t[0] == "cast":
+        t = strip(t[2])
+    v = None
+    if t[0] == "named":
+        v = t[3]
+    elif t[0] == "const":
+        v = t[1]
+    if isinstance(v, tuple) and v and v[0] in ("array", "slice") and all(isinstance(x, str) for x in v[1]):
+        return list(v[1])
+    return None
+
+
+def const_chars_t(t):
+    return boolsum.const_chars(t)
+
+
+def canon_atom(a):
+    """Canonical, region-based description of a guard atom (see DESIGN 2.2 item 3)."""
+    k = a[0]
+    if k == "is":
+        x, v = a[1], a[2]
+        if x[0] == "call" and x[1] == "std::option::Option::<T>::ok_or":
+            x = x[2][0]
+            v = {"Ok?": "Some", "Err?": "None", "Ok": "Some", "Err": "None"}.get(v, v)
+        if x[0] == "call" and x[1] == STR + "strip_prefix":
+            return ("prefix", cstr(x[2][1]), _region(x[2][0]), v == "Some")
+        sc = _split_call(x)
+        if sc is not None:
+            return ("found", sc[0] + "Split", sc[1], _region(sc[2]), v == "Some")
+        if x[0] == "call" and x[1].endswith("::next"):
+            return ("next", _region(("some", x)), v == "Some")
+        if x[0] == "call":
+            return ("callres", x[1], tuple(_region(y) for y in x[2]), v)
+        return ("is", nshow(x), v)
+    if k == "pred":
+        p, args, pos = a[1], a[2], a[3]
+        if p in EMPTY_PREDS:
+            return ("empty", _value(args[0]), pos)
+        if p == STR_CONTAINS and cchar(args[1]) is not None:
+            return ("contains", cchar(args[1]), _value(args[0]), pos)
+        if p == STR_CONTAINS and const_chars_t(args[1]) is not None:
+            return ("contains-any", tuple(const_chars_t(args[1])), _value(args[0]), pos)
+        if p == SLICE_CONTAINS and const_strs(args[0]) is not None:
+            return ("inlist", tuple(const_strs(args[0])), _value(args[1]), pos)
+        return ("pred", p, tuple(_value(y) for y in args), pos)
+    if k == "cmp":
+        return ("cmp", a[1], _value(a[2]), _value(a[3]), a[4])
+    return ("other", show_atom(a))
+
+
+def _value(n):
+    """region if the term is a region, else a var identity or a shown term"""
+    r = _region(n)
+    if region_ok(r):
+        return r
+    if n[0] == "var":
+        return ("Var", n[1])
+    if n[0] == "field":
+        return ("Field", nshow(n))
+    return r
+
+
+def show_canon(c):
+    def sv(v):
+        if isinstance(v, tuple) and v and v[0] in ("Input", "StripPrefix", "TrimStart", "Trim", "TrimEnd", "RSplitL", "RSplitR", "SplitL", "SplitR", "RSplitLOpt", "RSplitROpt", "SplitLOpt", "SplitROpt", "Item", "Decode", "?", "Phi"):
+            return show_region(v)
+        return str(v)
+    return "%s(%s)" % (c[0], ", ".join(sv(x) for x in c[1:]))
+
+
+def body_summary(facts, key):
+    """Generic per-body summary used by the loop rules: effects on mutable locals, returns, loops -- all with canonical atoms."""
+    body = facts.body(key)
+    eff = mut_effects(body)
+    for e in eff:
+        e["gatoms"] = [(gb, canon_atom(a)) for gb, a in atoms_at(body, e["bb"])]
+        e["catoms"] = [c for _, c in e["gatoms"]]
+    rets = []
+    for (b, n) in returns(body):
+        ga = [(gb, canon_atom(a)) for gb, a in atoms_at(body, b)]
+        rets.append({"bb": b, "site": body.site(b), "cls": classify_return(n), "gatoms": ga, "catoms": [c for _, c in ga]})
+    return {"key": key, "body": body, "effects": eff, "returns": rets, "loops": loop_of_next(body)}
